@@ -9,7 +9,8 @@ def handlers : List (String × (List String → Option String)) :=
     ("interp-linear", Series.handleLinear), ("interp-previous", Series.handlePrevious), ("series-insert", Series.handleInsert),
     ("capacity", Coverage.handleCapacity), ("propcov", Coverage.handlePropcov), ("effcov", Coverage.handleEffcov),
     ("covout", Covout.handle),
-    ("expr-accept", Expr.handle "expr-accept"), ("expr-eval", Expr.handle "expr-eval"), ("plotstr", Expr.handle "plotstr") ]
+    ("expr-accept", Expr.handle "expr-accept"), ("expr-eval", Expr.handle "expr-eval"), ("plotstr", Expr.handle "plotstr"),
+    ("rng", Rng.handle) ]
 
 /-- One request per line: `<kind> <args…>`; one canonical reply per line. -/
 def dispatch (line : String) : String :=
